@@ -169,6 +169,15 @@ func (eapAkaPrime *EapAkaPrime) Marshal() ([]byte, error) {
 		if err != nil {
 			return nil, errors.Wrapf(err, "EAP-AKA' Marshal(): write attribute/value failed")
 		}
+
+		if attr.attrType == AT_RES || attr.attrType == AT_KDF_INPUT {
+			// Zero padding up to the attribute length (a multiple of 4 bytes)
+			paddingLen := int(attr.length)*4 - EapAkaAttrTypeLen - EapAkaAttrLengthLen -
+				EapAkaAttrReservedLen - len(attr.value)
+			if paddingLen > 0 {
+				buffer.Write(make([]byte, paddingLen))
+			}
+		}
 	}
 
 	return buffer.Bytes(), nil
@@ -494,9 +503,8 @@ func (attr *EapAkaPrimeAttr) setAttr(attrType EapAkaPrimeAttrType, value []byte)
 		attr.reserved = uint16(valBitsLen) // The unit of reserved is bit
 		attr.length = uint8((totalLen + paddingBytes) / 4)
 
-		// Create value slice with padding
-		paddedLen := valBytesLen + paddingBytes
-		attr.value = make([]byte, paddedLen)
+		// The value is kept without padding; Marshal() appends the padding
+		attr.value = make([]byte, valBytesLen)
 		copy(attr.value, value)
 	case AT_KDF:
 		// RFC 5448:
